@@ -10,7 +10,8 @@ ID = "C17"
 TABLES = ["private_networks"]
 BUDGET = {"quick": (4, 60), "thorough": (16, 420)}
 EXTRA_TARGETS = ["theories/Net/PublicTable.vo"]
-RULE = ("templates holding ONE rule in one of 8 modelled positions (AWS::EC2::SecurityGroup inline ingress/egress as a single object "
+RULE = ("[histories: 30% of the resolve-stage cases resolve once or twice MORE with the same extra_params dict object before the rule is read] " +
+        "templates holding ONE rule in one of 8 modelled positions (AWS::EC2::SecurityGroup inline ingress/egress as a single object "
         "and as a list, stand-alone AWS::EC2::SecurityGroupIngress/Egress, AWS::RDS::DBSecurityGroup list member, "
         "AWS::RDS::DBSecurityGroupIngress); the CIDR text is literal or reaches the field through {Ref: P} (parameter Default or "
         "extra_params) and is observed after parse and after resolve(); addresses are drawn from the edges (first-1, first, last, "
